@@ -645,6 +645,12 @@ class RestAPI(object):
                     )
                     return aws_error("StateMachineDoesNotExist"), 400
 
+                """
+                Work on a copy, which is stored when the whole request has been
+                validated, so that a request that is refused changes nothing.
+                """
+                state_machine = dict(state_machine)
+
                 role_arn = params.get("roleArn")
                 if role_arn:
                     if not valid_role_arn(role_arn):
